@@ -163,6 +163,11 @@ class Check:
             if "Error:" in out and not (res["timeout"] and simulate):
                 log(out[-4000:])
                 raise ToolError(f"TLC {mc['module']} failed")
+            # a run that was killed (out of memory, signal) must not count as a pass
+            finished = ("Model checking completed" in out) or (simulate and (res["timeout"] or "states checked" in out or "The number of states generated" in out))
+            if not finished and not (res["timeout"] and mc.get("timeout_ok")):
+                log(out[-2000:])
+                raise ToolError(f"TLC {mc['module']} did not complete (rc={res['rc']})")
             if simulate:
                 m = re.search(r"(\d+) states checked", out.replace(",", ""))
                 st = int(m.group(1)) if m else 0
